@@ -88,6 +88,10 @@ def spec_table():
     T["brngHMACRand"] = ((lambda c: 32), lambda x, c, S: ("brngHMACRand", [x.out(c["L"] + 1), c["L"] + 1, S, 32, x.buf(expand(c["seed"], 20)), 20]))
     T["botpHOTPRand"] = ((lambda c: 32), lambda x, c, S: ("botpHOTPRand", [x.out(9), 6 + c["L"] % 3, S, 32, x.buf(expand(c["seed"], 8))]))
     T["botpTOTPRand"] = ((lambda c: 32), lambda x, c, S: ("botpTOTPRand", [x.out(9), 6 + c["L"] % 3, S, 32, 1000000 + c["L"]]))
+    # error exits behind a keyed state: question length outside [4, 2 q_max], missing time mark for a suite with -T
+    T["botpOCRARand:badq"] = ((lambda c: 32), lambda x, c, S: ("botpOCRARand", [x.out(10), x.buf(b"OCRA-1:HOTP-HBELT-8:C-QN08-PHBELT\0"), S, 32, x.buf(b"12345678" * 3), [2, 3, 17, 24][c["L"] % 4], x.buf(expand(c["seed"], 8)), x.buf(expand(c["seed"] + "p", 32)), None, 0]), "ERR_BAD_PARAMS")
+    T["botpOCRARand:badtime"] = ((lambda c: 32), lambda x, c, S: ("botpOCRARand", [x.out(10), x.buf(b"OCRA-1:HOTP-HBELT-6:QA10-T1M\0"), S, 32, x.buf(b"1234567890"), 10, None, None, None, (1 << 64) - 1]), "ERR_BAD_TIME")
+    T["botpTOTPRand:badtime"] = ((lambda c: 32), lambda x, c, S: ("botpTOTPRand", [x.out(9), 6 + c["L"] % 3, S, 32, (1 << 64) - 1]), "ERR_BAD_TIME")
     T["botpOCRARand"] = ((lambda c: 32), lambda x, c, S: ("botpOCRARand", [x.out(10), x.buf(b"OCRA-1:HOTP-HBELT-8:C-QN08-PHBELT\0"), S, 32, x.buf(b"12345678"), 8, x.buf(expand(c["seed"], 8)), x.buf(expand(c["seed"] + "p", 32)), None, 0]))
     T["belsShare2"] = ((lambda c: 16), lambda x, c, S: ("belsShare2", [x.out(5 * 17), 5, 3, 16, S, GEN, x.tape(expand(c["seed"], 64), mode=1)]))
     T["belsShare2:secretrng"] = ((lambda c: 32), lambda x, c, S: ("belsShare2", [x.out(5 * 17), 5, 3, 16, x.buf(expand(c["seed"], 16)), GEN, tape_from(x, S)]))
@@ -119,7 +123,21 @@ def spec_table():
 
         def dh(x, c, S, l=l, n=n):
             Q = RB.point_to_octets(RB.std_params(l), RB.pubkey_calc(RB.std_params(l), 5 + c["L"]))
-            return "bignDH", [x.out(32), bign_params(x, l), S, x.buf(Q), 32]
+            kl = [32, n, n + 16, 2 * n - 1, 2 * n, 1, n + 1][c["L"] % 7]        # every length class of the shared key (<x>, <x> and part of <y>, both)
+            return "bignDH", [x.out(kl), bign_params(x, l), S, x.buf(Q), kl]
+
+        def keywrap(x, c, S, l=l, n=n, inplace=False):
+            # the transported key is the secret; the recipient's public key and the generator output are public
+            kl = 16 + c["L"] % 49
+            Q = RB.point_to_octets(RB.std_params(l), RB.pubkey_calc(RB.std_params(l), 7 + c["L"]))
+            hdr = x.buf(expand(c["seed"] + "h", 16)) if c["L"] % 2 else None
+            tape = x.tape(expand(c["seed"] + "k", n)[:-1] + b"\x01", mode=1)
+            if inplace:
+                # key stored where it will end up inside the token (supported by the implementation: memMove)
+                T = x.out(n + kl + 16)
+                x.call("memCopy", T.at(n), S, kl, ret="v")
+                return "bignKeyWrap", [T, bign_params(x, l), T.at(n), kl, hdr, x.buf(Q), GEN, tape]
+            return "bignKeyWrap", [x.out(n + kl + 16), bign_params(x, l), S, kl, hdr, x.buf(Q), GEN, tape]
 
         def calc(x, c, S, l=l, n=n):
             return "bignPubkeyCalc", [x.out(2 * n), bign_params(x, l), S]
@@ -131,6 +149,8 @@ def spec_table():
         T["bignSign2_%d" % l] = ((lambda c, n=n: ("d", n)), sign2)
         T["bignSign%d:badrng" % l] = ((lambda c, n=n: ("d", n)), signrng, "ERR_BAD_RNG")
         T["bignDH%d" % l] = ((lambda c, n=n: ("d", n)), dh)
+        T["bignKeyWrap%d" % l] = ((lambda c: 16 + c["L"] % 49), keywrap)
+        T["bignKeyWrap%d:inplace" % l] = ((lambda c: 16 + c["L"] % 49), (lambda x, c, S, kw=keywrap: kw(x, c, S, inplace=True)))
         T["bignPubkeyCalc%d" % l] = ((lambda c, n=n: ("d", n)), calc)
         T["bignKeyUnwrap%d:bad" % l] = ((lambda c, n=n: ("d", n)), unwrapbad, "any_error")
 
